@@ -10,6 +10,16 @@ NOTE = ("Trusted: Coq 8.16.1 kernel (no axioms: every property theorem prints 'C
         "The theorems are about the hand-written Gallina model; the model is tied to /repo on every run by the table "
         "translator and by the differential correspondence run, which bounds what has been exercised.")
 CLAIMED = {
+    "C16": dict(
+        text="18 theorems: resolve_tag equals the spec's expand on the parser's table for every handle shape (error exactly for an undeclared "
+             "named handle); the directive loop yields merge T (decls run) for EVERY run of directive tokens, errors exactly on a duplicate "
+             "non-empty handle or a repeated %YAML, never exhausts its fuel; document end clears the table iff keep_tags is false; every "
+             "other state leaves it alone; percent-decoding: for every byte sequence accepted by an independently written strict UTF-8 "
+             "decoder (every Unicode scalar value) the scanner model returns that character and consumes 3n characters; the tokens "
+             "scan_tag/scan_directive produce satisfy the theorems' shape hypotheses. Tie/oracle: directive sets x tag spellings x "
+             "documents x keep_tags vs a Python and the extracted Coq rendering of the spec; model vs implementation. Known finding: "
+             "overlong UTF-8 escapes are decoded (machine-checked refutation of strictness).",
+        ref="DESIGN.md 5/C16", tech="Rocq proof (resolve_tag = expand; directive loop = table_of; UTF-8 percent-decoding, all code points) + spec oracle on implementation + differential correspondence"),
     "C07": dict(
         text="13 theorems, all full: the loader model refines an independent tree specification build_docs for EVERY document list "
              "(generalised stack lemma by induction on event trees: sequences in order, key/value pairing, aliases as copies of the "
